@@ -213,7 +213,7 @@ static int enabled(int i)
 	case ST_LOCK:
 		return L[lk_idx(t->obj)].owner == -1;
 	case ST_WAIT:
-		return t->retry || (t->deadline >= 0 && t->deadline <= vnow);
+		return t->retry || (t->deadline >= 0 && t->deadline <= vnow) || simk_sig_pending_unblocked(i);
 	case ST_JOIN:
 		return T[t->join_target].st == ST_DONE;
 	default:
@@ -451,10 +451,30 @@ int __wrap_pthread_spin_unlock(pthread_spinlock_t *m)
 	return r;
 }
 
+int __real_pthread_spin_init(pthread_spinlock_t *, int);
+int __real_pthread_mutex_init(pthread_mutex_t *, const pthread_mutexattr_t *);
+
+/* (re-)initialisation makes the lock free whatever the table said (the
+ * library re-initialises its signal lock in a forked child) */
+int __wrap_pthread_spin_init(pthread_spinlock_t *m, int ps)
+{
+	if (!simk_passthrough)
+		L[lk_idx((void *)m)].owner = -1;
+	return __real_pthread_spin_init(m, ps);
+}
+
+int __wrap_pthread_mutex_init(pthread_mutex_t *m, const pthread_mutexattr_t *a)
+{
+	if (!simk_passthrough)
+		L[lk_idx(m)].owner = -1;
+	return __real_pthread_mutex_init(m, a);
+}
+
 /* a plain yield point (used around operations that publish state to other
  * threads: writes to event descriptors, epoll_ctl kicks, ...) */
 static void yield_point(void)
 {
+	simk_sigpoint();
 	if (!mt())
 		return;
 	__real_pthread_mutex_lock(&M);
@@ -526,6 +546,7 @@ int __wrap_pthread_create(pthread_t *pt, const pthread_attr_t *a, void *(*fn)(vo
 	b->id = nth++;
 	T[b->id].st = ST_RUN;
 	T[b->id].deadline = -1;
+	simk_thread_inherit_mask(b->id, me);
 	sync_log("create", b->id);
 	__real_pthread_mutex_unlock(&M);
 	int r = __real_pthread_create(pt, a, boot, b);
@@ -692,6 +713,19 @@ static int do_wait(int prim, int epfd, struct epoll_event *ev, int max,
 	__real_pthread_mutex_lock(&M);
 	T[me].deadline = deadline;
 	for (;;) {
+		if (simk_sig_pending_unblocked(me)) {
+			/* a signal arrives while in (or entering) the wait: the
+			 * handler runs and the wait fails with EINTR */
+			int n;
+			__real_pthread_mutex_unlock(&M);
+			n = simk_sigpoint();
+			__real_pthread_mutex_lock(&M);
+			if (n) {
+				r = -1;
+				errno = EINTR;
+				break;
+			}
+		}
 		r = real_poll0(prim, epfd, ev, max, pf, npf);
 		if (r != 0 || rel == 0 || (deadline >= 0 && deadline <= vnow))
 			break;
